@@ -56,6 +56,7 @@ partial def toExpr : SExp → Option Expr
   | .list [.atom "abs", a] => do some (.abs (← toExpr a))
   | .list [.atom "min", a, b] => do some (.mm .min (← toExpr a) (← toExpr b))
   | .list [.atom "max", a, b] => do some (.mm .max (← toExpr a) (← toExpr b))
+  | .list [.atom "str", a] => do some (.toStr (← toExpr a))
   | _ => none
 
 partial def toStmt : SExp → Option Stmt
